@@ -32,12 +32,13 @@ CHECKS = {
     "C02": data(),
     "C03": data(),
     "C07": data(extra_assumptions=["Named consumers collide with numeric ones only through the 32-bit name hash; that probability is ignored."]),
-}
-PENDING = {
+    "C14": data(extra_assumptions=["Virtual time: hook H1 adds a monotone offset to IggyTimestamp::now(); pass time is bracketed by reads of that clock.",
+                                   "Segment boundaries are not observable from outside: 'the segment being written is never deleted' is checked through its consequence that unexpired and newest messages survive."]),
+    "C15": data(),
     "C16": data(),
     "C17": data(),
     "C18": data(extra_assumptions=["The id cache's own TTL/capacity edges are not explored (moka has its own clock); workloads stay far inside both, as the quantifier allows."]),
-    "C19": data(),
+    "C19": data(extra_assumptions=["Key mismatch is exercised with one alternative key and with encryption switched off; markers searched for are the unique message tags (plus following random bytes) and the >= 8 byte names journalled in the history."]),
 }
 
 # ------------------------------------------------------------------------------------------------
@@ -60,9 +61,27 @@ MANIFEST_TEXT = {
     "C07": {"level_text": "Exploration: after every offset-mutating step all identities (consumers, named consumers, groups with colliding ids) are read back on the partition and compared with an offset model; next-polls and auto-commit are checked against the same model.",
             "design_ref": "DESIGN.md §4 C07", "level_note": _DATA_NOTE,
             "technique": "runtime monitoring: offset reference model with full read-back after each mutation"},
+    "C14": {"level_text": "Exploration with a virtual clock: expiring topics, tiny segments, clock advances and real maintenance passes; after each pass a windowed full scan decides deleted => expired, unexpired => retained, survivors served unchanged, offsets continue (also across restart), reads below the earliest retained offset start at it.",
+            "design_ref": "DESIGN.md §4 C14", "level_note": _DATA_NOTE + " Hook H1 (clock offset).",
+            "technique": "runtime monitoring: retention oracle over model timestamps under a hooked virtual clock"},
+    "C15": {"level_text": "Exploration: the size the gate itself uses (TopicDetails.size) is read before every send; accept/refuse must follow the configured rule; clean-up passes may only remove a prefix, at most one segment per partition, never the newest message; too-small limits must be refused.",
+            "design_ref": "DESIGN.md §4 C15", "level_note": _DATA_NOTE,
+            "technique": "runtime monitoring: gate oracle on observed size + prefix/oldest-only oracle after maintenance passes"},
+    "C16": {"level_text": "Exploration: at checkpoints partition/topic/stream figures and server statistics are compared with the reference model and with each other (sums), and before/after every restart.",
+            "design_ref": "DESIGN.md §4 C16", "level_note": _DATA_NOTE,
+            "technique": "runtime monitoring: conservation of counters against a reference model"},
+    "C17": {"level_text": "Exploration: per send the per-partition message counts are read before and after: exactly one partition grows by the batch size; named partition / key memo / rotation successor are checked against small models.",
+            "design_ref": "DESIGN.md §4 C17", "level_note": _DATA_NOTE,
+            "technique": "runtime monitoring: before/after counter vectors + key memo + rotation model"},
+    "C18": {"level_text": "Exploration with deduplication on (and off): batches with seeded id repetition patterns (within batch, across batches, across save points, roll-overs and restarts); growth per send and full scans must equal the first-occurrence model.",
+            "design_ref": "DESIGN.md §4 C18", "level_note": _DATA_NOTE,
+            "technique": "runtime monitoring: first-occurrence reference model"},
+    "C19": {"level_text": "Exploration with encryption on: lossless reads (model), byte search of every file under the data directory for message markers and journalled names, restart with another key / with encryption off, flipped ciphertext byte must surface as an error.",
+            "design_ref": "DESIGN.md §4 C19", "level_note": _DATA_NOTE,
+            "technique": "runtime monitoring: reference model + file-content scan + fault injection on stored ciphertext"},
 }
 
 NOT_APPLICABLE = [
     {"property_id": p, "reason": "check under construction in this framework (not yet claimed)"}
-    for p in ["C04", "C05", "C06", "C08", "C09", "C10", "C11", "C12", "C13", "C14", "C15", "C16", "C17", "C18", "C19", "C20"]
+    for p in ["C04", "C05", "C06", "C08", "C09", "C10", "C11", "C12", "C13", "C20"]
 ]
